@@ -30,7 +30,7 @@ func init() {
 		ID:      "C11",
 		Level:   "other",
 		Explain: "The trigger-free equations compare two configurations on all inputs and are not decided. Decided are two clauses: (G) extension.GFM's Extend consists of exactly one Extend(m) call on each of the singletons Linkify, Table, Strikethrough, TaskList with the same argument and nothing else, so GFM is its four members by construction; (B) in the render function registered for text nodes, every path on which SoftLineBreak() is true ends with a write containing a newline unless the path skipped it on the result of the East-Asian width predicate — only the predicate may suppress a soft break, so ASCII-only input is rendered the same with the CJK extension. Does NOT decide the equations for Strikethrough, Table, TaskList, Footnote, DefinitionList, Typographer, Linkify or escaped space.",
-		Rules:   []func(*World, *Report){ruleGFMComposition, ruleSoftBreakKept},
+		Rules:   []func(*World, *Report){ruleGFMComposition, ruleSoftBreakKept, ruleEscapedSpaceExact},
 	})
 }
 
@@ -352,6 +352,9 @@ func ruleReferencePhases(w *World, r *Report) {
 					if _, isOnce := cg.OnceClosures[f]; isOnce {
 						continue
 					}
+					if _, isOnce := cg.OnceClosures[w.unwrapBound(f)]; isOnce {
+						continue
+					}
 					inlineRoots = append(inlineRoots, f)
 					if inlineStart == nil {
 						inlineStart = ins
@@ -604,6 +607,18 @@ func ruleSoftBreakKept(w *World, r *Report) {
 									if pc.Const && strings.Contains(pc.Text, "\n") {
 										wrote = true
 									}
+									// a choice among constants (conditional constant written once): every alternative has the newline
+									if !pc.Const && pc.Data.Kind == DConst && len(pc.Data.Alts) > 0 {
+										all := true
+										for _, alt := range pc.Data.Alts {
+											if !strings.Contains(alt, "\n") {
+												all = false
+											}
+										}
+										if all {
+											wrote = true
+										}
+									}
 								}
 							}
 						}
@@ -636,4 +651,100 @@ func ruleSoftBreakKept(w *World, r *Report) {
 			r.OK(w.FnKey(fn)+": soft break kept", w.FnPos(fn), fmt.Sprintf("%d paths examined: each writes a newline or was suppressed by the width predicate", nPaths))
 		}
 	}
+}
+
+// ============================ C11-E ==============================================================
+
+// ruleEscapedSpaceExact: the escaped-space option of the HTML writer may only swallow backslash + U+0020.
+func ruleEscapedSpaceExact(w *World, r *Report) {
+	r.Rule("C11-E", "Every load of the HTML writer's EscapedSpace option is used only as a branch condition, and on the path on which it is true the very next byte test — evaluated for all 256 byte values — holds for ' ' (0x20) only. The option (enabled by the CJK extension) must not change the rendering of any input that contains no backslash-space; a wider test such as IsSpace(c) silently swallows backslash-TAB.")
+	wc := w.Named("renderer/html", "WriterConfig")
+	if wc == nil {
+		r.Unknown("html.WriterConfig", "", "not found")
+		return
+	}
+	n := 0
+	for _, fn := range w.Funcs {
+		for _, b := range fn.Blocks {
+			for _, ins := range b.Instrs {
+				u, ok := ins.(*ssa.UnOp)
+				if !ok || u.Op != token.MUL {
+					continue
+				}
+				fa, ok := u.X.(*ssa.FieldAddr)
+				if !ok {
+					continue
+				}
+				_, f := fieldOfAddr(fa)
+				if f == nil || f.Name() != "EscapedSpace" || !isBool(u.Type()) {
+					continue
+				}
+				// only the writer's flag (a field of WriterConfig, possibly embedded)
+				st := deref(fa.X.Type())
+				if nt, ok := st.(*types.Named); !ok || nt.Obj() != wc.Obj() {
+					continue
+				}
+				if fn.Name() == "init" || strings.HasPrefix(fn.Name(), "With") || fn.Parent() != nil {
+					continue
+				}
+				n++
+				key := w.FnKey(fn) + ": EscapedSpace"
+				refs := liveRefs(u)
+				if len(refs) != 1 {
+					r.Unknown(key, w.InstrPos(u), fmt.Sprintf("the option has %d uses; expected exactly one branch", len(refs)))
+					continue
+				}
+				iff, ok := refs[0].(*ssa.If)
+				if !ok {
+					r.Unknown(key, w.InstrPos(u), "the option is used as data")
+					continue
+				}
+				tb := iff.Block().Succs[0]
+				ni, ok := tb.Instrs[len(tb.Instrs)-1].(*ssa.If)
+				if !ok {
+					r.Unknown(key, w.InstrPos(u), "the option's true arm is not followed by a byte test")
+					continue
+				}
+				// find the byte under test: a load of source[i]
+				var base, idx ssa.Value
+				operandsClosure(ni.Cond, func(v ssa.Value) bool {
+					if l, ok := v.(*ssa.UnOp); ok && l.Op == token.MUL {
+						if ia, ok := l.X.(*ssa.IndexAddr); ok && isByteSlice(ia.X.Type()) {
+							base, idx = ia.X, stripConv(ia.Index)
+						}
+					}
+					return true
+				})
+				if base == nil {
+					r.Unknown(key, w.InstrPos(ni), "no byte of the input is tested after the option")
+					continue
+				}
+				env := &byteEnv{w: w, base: base, idx: idx}
+				var acc [256]bool
+				cnt := 0
+				undecided := false
+				for c := 0; c < 256; c++ {
+					env.vals = map[int]int{0: c}
+					v, known := env.eval(ni.Cond)
+					if !known {
+						undecided = true
+						break
+					}
+					if v != 0 {
+						acc[c] = true
+						cnt++
+					}
+				}
+				switch {
+				case undecided:
+					r.Unknown(key, w.InstrPos(ni), "the byte test after the option cannot be evaluated")
+				case cnt == 1 && acc[' ']:
+					r.OK(key, w.InstrPos(ni), "the option only affects backslash + U+0020")
+				default:
+					r.Bad(key, w.InstrPos(ni), "with the option on, the writer swallows a backslash followed by any of "+byteSetString(acc)+", not only U+0020: input without backslash-space renders differently with the CJK extension")
+				}
+			}
+		}
+	}
+	r.Expect("reads of the writer's EscapedSpace option", n, 1)
 }
